@@ -9,7 +9,10 @@ from ..shellenv import ShellEnv
 MODULES = ["Robsd.Props.C16"]
 GENS = []
 KEEP_FILES = ["report", "comment", "tags", "step.csv", "stat.csv", "src.diff.1", "rel/index.txt"]
-DROP_FILES = ["001-env.log", "002-cvs.log.1", "robsd.log", "tmp/cvs.log", "rel/bsd", "dmesg", "snapshots/x"]
+DROP_FILES = ["001-env.log", "002-cvs.log.1", "robsd.log", "tmp/cvs.log", "rel/bsd", "dmesg", "snapshots/x",
+              # scratch files below tmp/ named like the preserved ones: tmp/ goes as a whole (elsewhere the
+              # filter is by file name, as for rel/index.txt)
+              "tmp/index.txt", "tmp/report", "tmp/src.diff.1", "tmp/step-exec.abc/tags"]
 
 
 def snapshot(root):
